@@ -124,20 +124,22 @@ class C12(Prop):
     header = ('From RP Require Import Gen.StatesTables States.Model States.Inst TmgrSched.Model TmgrSched.Oracle.\n'
               'Open Scope Z_scope.')
     clauses = ['bound_once', 'named_goes_to_named', 'only_added', 'waits_not_lost', 'sandbox_matches',
-               'rr_balance', 'bf_window_hwm', 'bf_used_zero']
+               'rr_balance', 'bf_window_hwm', 'bf_used_zero', 'bound_only_to_eligible']
     sites = {'bound_once': 'TMGRSchedulingComponent.control_cb/work',
              'named_goes_to_named': 'TMGRSchedulingComponent._assign_pilot',
              'only_added': '_schedule_tasks', 'waits_not_lost': '_schedule_tasks',
              'sandbox_matches': 'TMGRSchedulingComponent._assign_pilot',
              'rr_balance': 'RoundRobin._schedule_tasks', 'bf_window_hwm': 'Backfilling._schedule_tasks',
-             'bf_used_zero': 'Backfilling.update_tasks'}
+             'bf_used_zero': 'Backfilling.update_tasks',
+             'bound_only_to_eligible': 'TMGRSchedulingComponent._update_pilot_states'}
     corr_name = ('TmgrSched.Model.run (step: work/control_cb/_base_state_cb over RoundRobin and Backfilling) vs '
                  'the real TMGRSchedulingComponent/RoundRobin/Backfilling methods')
     rule = ('corpus, then seed-determined random message histories (3-14 messages: task submissions with and '
             'without a named pilot, add_pilots/remove_pilots commands incl. re-adds, foreign-tmgr and rejected '
             'commands, pilot state and task state notifications) for both schedulers, backfilling with default '
             'and patched HWM/window constants; thorough adds all histories of <= 4 messages over a 10-letter '
-            'alphabet (2 pilots, 3 tasks). non-trivial = >= 4 messages of >= 3 kinds with >= 1 task placed by '
+            'alphabet (2 pilots, 3 tasks); directed blocks for stale pilot documents (final-state notification before the '
+            'add command; add / reported final / remove / re-add with the old document). non-trivial = >= 4 messages of >= 3 kinds with >= 1 task placed by '
             'the scheduling algorithm and >= 1 task forwarded')
     trusted = [
         'translator translators/states.py (ast -> Gen/StatesTables.v; fail closed): pilot/task state values',
@@ -171,6 +173,33 @@ class C12(Prop):
         active_bias = 0.65 if kind == 'bf' else 0.3
         for _ in range(nops):
             r = rng.random()
+            free0 = [p for p in range(1, npil + 1) if p not in added]
+            if free0 and rng.random() < (0.07 if kind == 'bf' else 0.02):
+                # stale pilot documents: the scheduler already holds a more advanced state than the
+                # document of the add_pilots command says
+                p = rng.choice(free0)
+                fin = rng.choice(PSTATES[5:])
+                cores = rng.choice([2, 4, 8])
+                blk = []
+                if rng.random() < 0.5:      # (A) the final-state notification overtakes the add command
+                    blk.append(['pstates', [[p, fin]]])
+                    blk.append(['add', 'mine', [[p, 'PMGR_ACTIVE', cores]]])
+                else:                       # (B) add, reported final, removed, re-added with the old document
+                    blk.append(['add', 'mine', [[p, 'PMGR_ACTIVE', cores]]])
+                    if rng.random() < 0.5:
+                        blk.append(['submit', [[nxt, 0, 1, 1]]])
+                        subm.append(nxt)
+                        nxt += 1
+                    blk.append(['pstates', [[p, fin]]])
+                    blk.append(['remove', 'mine', [p]])
+                    blk.append(['add', 'mine', [[p, 'PMGR_ACTIVE', cores]]])
+                blk.append(['submit', [[nxt, 0, 1, 1], [nxt + 1, 0, 1, 2]]])
+                subm += [nxt, nxt + 1]
+                nxt += 2
+                ops += blk
+                added.append(p)
+                ever.append(p)
+                continue
             if r < 0.34:
                 ts = []
                 for _k in range(rng.randint(1, 5)):
@@ -483,6 +512,10 @@ class C12(Prop):
             # the first task-state message that update_tasks left with an exception
             errs = [r['err'] for o, r in zip(case['ops'], obs['per_op']) if o[0] == 'tstates' and r['err']]
             cond = 'update_tasks-raised-' + errs[0] if errs else 'no-exception'
+        elif obs and clause == 'bound_only_to_eligible':
+            # a pilot state notification batch which _update_pilot_states left with an exception
+            errs = [r['err'] for o, r in zip(case['ops'], obs['per_op']) if o[0] == 'pstates' and r['err']]
+            cond = 'pilot-state-batch-raised-' + errs[0] if errs else 'no-exception'
         elif clause == 'bound_once':
             adds = [p for o in case['ops'] if o[0] == 'add' for p, _, _ in o[2]]
             cond = 'pilot-added-twice' if len(adds) != len(set(adds)) else 'no-readd'
